@@ -786,6 +786,46 @@ let do_names id ins outs =
            (if out = "hang" then "hang" else "panic: " ^ (try string_of_bytes (bytes_of_token (String.sub out 6 (String.length out - 6))) with _ -> out)))
   | _ -> verdict "names" id "diff" "malformed-line" ""
 
+(* ---- engine resolver, mode eps ----  eps <id> <op;...> => <out;...>
+   real DoH endpoints that differ in their bootstrap address only; expected: spec_best (first healthy candidate in the
+   provider's order, else the first) at every election, and every query served by the elected endpoint's own server *)
+let do_eps id ins outs =
+  match ins, outs with
+  | [opss], [outss] ->
+    let ops = String.split_on_char ';' opss and os = String.split_on_char ';' outss in
+    let offer = ref [0; 1] and mask = ref 7 and elected = ref (-1) in
+    let name e = hex_of_string (Printf.sprintf "https://doh.test#127.0.0.%d" (e + 1)) in
+    let elect () =
+      let en = { provs = [PEps (List.map z_of_int !offer)];
+                 health = List.map (fun e -> (z_of_int e, (if !mask land (1 lsl e) <> 0 then ProbeOk else ProbeFail))) [0; 1; 2];
+                 now = z_of_int 1000000000 } in
+      let e = (match spec_best en with BOk e | BFallback e -> int_of_z e | _ -> -1) in
+      let changed = e <> !elected in
+      elected := e; changed in
+    let problems = ref [] in
+    (try List.iteri (fun i (o, out) ->
+        match String.split_on_char ':' o with
+        | ["H"; m] -> mask := int_of_string m
+        | ["P"; l] -> offer := List.map int_of_string (String.split_on_char ',' l)
+        | ["E"] ->
+          let changed = elect () in
+          let want = if changed then name !elected else "same" in
+          if out <> want then problems := Printf.sprintf "op %d (election, servers up mask %d, offer %s): announced %s, first healthy candidate in order is %s" i !mask
+                (String.concat "," (List.map string_of_int !offer)) (if out = "same" then "no change" else string_of_bytes (bytes_of_token out))
+                (Printf.sprintf "127.0.0.%d" (!elected + 1)) :: !problems
+        | ["Q"] ->
+          let boot = (!elected < 0) in
+          let changed = if boot then elect () else false in
+          let up = !mask land (1 lsl !elected) <> 0 in
+          let want = (if up then Printf.sprintf "s%d" !elected else "none") ^ (if changed then "/" ^ name !elected else "") ^ (if up then "/0" else "/1") in
+          if out <> want then problems := Printf.sprintf "op %d (query, elected 127.0.0.%d, servers up mask %d): observed %s expected %s" i (!elected + 1) !mask out want :: !problems
+        | _ -> ()) (List.combine ops os)
+     with Invalid_argument _ -> problems := ["ops/outs length"]);
+    let tag = Printf.sprintf "ops%d" (min (List.length ops) 9) in
+    if !problems = [] then verdict "eps" id "ok" tag ""
+    else verdict "eps" id "spec:C08,C09" tag (String.concat "; " (List.rev !problems))
+  | _ -> verdict "eps" id "diff" "malformed-line" ""
+
 (* ---- engine racestress ----  race <i> stress <secs> => none | <frames> <count>
    no model output to compare: a report by the Go race detector whose stacks touch /repo
    code is a failure of C15 on the implementation itself *)
@@ -1168,6 +1208,7 @@ let () =
       | "sid" :: id :: rest -> let (i, o) = split_arrow rest in do_sid id i o
       | "e2e" :: id :: rest -> let (i, o) = split_arrow rest in do_e2e id i o
       | "lmc" :: id :: rest -> let (i, o) = split_arrow rest in do_lmc id i o
+      | "eps" :: id :: rest -> let (i, o) = split_arrow rest in do_eps id i o
       | "names" :: id :: rest -> let (i, o) = split_arrow rest in do_names id i o
       | "rfr" :: id :: rest -> let (i, o) = split_arrow rest in do_rfr id i o
       | "cis" :: id :: rest -> let (i, o) = split_arrow rest in do_cis id i o
